@@ -82,6 +82,8 @@ LOWERABLE = {
     # only with a closure literal (a constructor function as argument stays an ordinary call)
     _R + "map_err": {"on": "res", "arms": {"Ok": ("value", lambda p, a: _ok(p)), "Err": ("wrapcall", 1, _err)}},
     _O + "ok_or_else": {"on": "opt", "arms": {"Some": ("value", lambda p, a: _ok(p)), "None": ("wrapcall", 1, _err)}},
+    "core::bool::<impl bool>::then_some": {"on": "bool", "arms": {"true": ("value", lambda p, a: _some(a[1])), "false": ("value", lambda p, a: _NONE)}},
+    "core::bool::<impl bool>::then": {"on": "bool", "arms": {"true": ("wrapcall", 1, _some), "false": ("value", lambda p, a: _NONE)}},
 }
 _FRESH = [0]
 NOT_FOLLOWED = set()
@@ -125,7 +127,7 @@ class PathEnum:
         base = adt_base(adt)
         if base in STD_DISCR:
             return STD_DISCR[base].get(variant)
-        a = self.facts.adts.get(base)
+        a = self.facts.adts.get(adt) or self.facts.adts.get(base)     # an enum local to a generic fn keeps `<T>` in its path
         if a:
             for v in a["variants"]:
                 if v["name"] == variant:
@@ -398,6 +400,15 @@ class PathEnum:
                         ct = ("agg", "std::ops::ControlFlow", "Break", (("residual", args[0]),))
                 elif path == "std::ops::FromResidual::from_residual" and args and args[0][0] == "agg" and args[0][2] == "Err":
                     ct = args[0]
+                elif path == "std::result::Result::<T, E>::map_err" and len(args) == 2 and args[0][0] == "agg" and args[0][2] in ("Ok", "Err") and adt_base(args[0][1]) == "std::result::Result":
+                    # map_err on a literal Result (the value a helper traversed inline returned)
+                    if args[0][2] == "Ok":
+                        ct = args[0]
+                    elif args[1][0] == "fnconst" and "::" in args[1][1]:
+                        adt, _, var = args[1][1].rpartition("::")
+                        a = self.facts.adts.get(adt)
+                        if a is not None and any(v["name"] == var for v in a["variants"]):
+                            ct = _err(("agg", adt, var, tuple(args[0][3])))
                 elif path in ("std::option::Option::<T>::ok_or",) and len(args) == 2 and args[0][0] == "agg" and args[0][2] in ("Some", "None"):
                     # ok_or on a literal Option (the result of a combinator traversed inline)
                     ct = _ok(args[0][3][0]) if args[0][2] == "Some" else _err(args[1])
@@ -505,6 +516,40 @@ class PathEnum:
         branch on the receiver's variant and walk the closure body, exactly what the combinator does."""
         spec = LOWERABLE[path]
         recv = args[0]
+        if spec["on"] == "bool":
+            # b.then_some(v) / b.then(|| v): Some exactly when b holds
+            if spec["arms"]["true"][0] != "value":
+                c0 = args[1]
+                while c0[0] in ("ref", "deref"):
+                    c0 = c0[1]
+                if not (c0[0] == "closure" and c0[1] in self.facts.fns):
+                    return False
+            for tv, cnd in ((False, ("eq", 0)), (True, ("ne", (0,)))):
+                if recv[0] == "const" and isinstance(recv[1], bool):
+                    if recv[1] != tv:
+                        continue
+                    conds_b, events_b = conds, events
+                else:
+                    if not feasible(conds, recv, cnd, events):
+                        continue
+                    conds_b = conds + [(recv, cnd, bb)]
+                    events_b = events + [("cond", bb, None, recv, cnd)]
+                events_b = events_b + [("lowered", bb, None, path, ("call", path, args, bb), t)]
+                how = spec["arms"]["true" if tv else "false"]
+                if how[0] == "value":
+                    env2 = dict(env)
+                    self._assign(env2, t["dest"], how[1](None, args))
+                    self._walk(t["target"], env2, conds_b, trace, events_b, onpath)
+                else:
+                    clo = args[how[1]]
+                    while clo[0] in ("ref", "deref"):
+                        clo = clo[1]
+                    LOWERED.add(clo[1])
+                    callee = self.facts.fns[clo[1]]
+                    ty1 = callee.locals[1]["ty"] if callee.nargs >= 1 else {}
+                    self_arg = ("ref", clo, bool(ty1.get("mut"))) if ty1.get("k") == "ref" else clo
+                    self._inline(clo[1], (self_arg,), t, dict(env), conds_b, trace, events_b, onpath, bb, ret_wrap=how[2], use_ops=False)
+            return True
         variants = ("None", "Some") if spec["on"] == "opt" else ("Ok", "Err")
         d = ("discr", recv)
 
